@@ -102,6 +102,11 @@ func (server *SugarDB) Flush(database int) {
 		return
 	}
 
+	// A database that was never written to has no store or caches yet: nothing to flush.
+	if _, ok := server.store[database]; !ok {
+		return
+	}
+
 	// Clear db store.
 	clear(server.store[database])
 	// Clear db volatile key tracker.
